@@ -1,7 +1,7 @@
 (* Properties/C14.v — Deprecation strategies allow / warn / deny do exactly what is documented.
    Stated on the model of ExpandedField::render (every emitted field goes through it), for every
    field name, type, qualifier list, option set and deprecation reason. *)
-From GC Require Import Base Rust TypeExpr Heck Strs Naming Enums Schema Query Attrs Codegen Json Serde SerdeLemmas DeprProofs StrategyAll.
+From GC Require Import Base Rust TypeExpr Heck Strs Naming Enums Schema Query Attrs Codegen Json Serde SerdeLemmas DeprProofs StrategyAll InvariantAll MarkAll.
 
 Theorem C14_allow : forall o g rust ft quals fl boxed depr,
   exists f, render_field (with_strategy o DAllow) g rust ft quals fl depr boxed = Some f /\
@@ -87,3 +87,14 @@ Proof. exact strategy_maps_example. Qed.
 Print Assumptions C14_allow_is_warn_unmarked.
 Print Assumptions C14_deny_is_warn_without_marked.
 Print Assumptions C14_items_allow_warn.
+
+(* ---------- for ALL programs (MarkAll.v): at every position the expansion of any selection reaches, only
+   `warn` ever emits a deprecation mark, and only `deny` ever omits a selected field. *)
+Theorem C14_only_warn_marks : forall s frs o fuel c sels sid t p c', strategy o <> DWarn ->
+  fields_all unmarked c -> calc s frs o fuel c sels sid t p = Some c' -> fields_all unmarked c'.
+Proof. exact only_warn_marks. Qed.
+Theorem C14_only_deny_omits : forall s frs o fuel c sels sid t p c', strategy o <> DDeny ->
+  fields_all present c -> calc s frs o fuel c sels sid t p = Some c' -> fields_all present c'.
+Proof. exact only_deny_omits. Qed.
+Print Assumptions C14_only_warn_marks.
+Print Assumptions C14_only_deny_omits.
